@@ -555,6 +555,10 @@ fn adaptive_remainder<B: SField, E: winter_math::FieldElement<BaseField = B>>(sc
     Some(bytes)
 }
 
+fn rd_scalar(b: &[u8], off: usize, w: usize) -> u64 {
+    (0..w.min(8)).fold(0u64, |v, i| v | ((b[off + i] as u64) << (8 * i)))
+}
+
 pub struct Mutate {
     pub grammar: Vec<crate::wire::Field>,
     pub mutations: Vec<crate::wire::Mutation>,
@@ -699,8 +703,15 @@ impl Job for Mutate {
                 }
             }
         }
+        let span_map: serde_json::Map<String, Value> =
+            sp.iter().map(|x| (x.name.clone(), json!(if x.kind == "scalar" { rd_scalar(&bytes, x.off, x.width) } else { x.len as u64 }))).collect();
+        let digest_bytes = {
+            use winter_utils::Serializable;
+            H::hash(&[]).to_bytes().len()
+        };
         json!({"id": sc.id, "prove": "ok", "honest": honest, "bytes": bytes.len(), "structured": applied, "structured_classes": structured, "grind": sc.opts.grind, "bitflips": flips, "adaptive": adaptive, "colliding_nonce": colliding_nonce,
-               "truncations": truncs, "tally": tally, "findings": findings})
+               "truncations": truncs, "tally": tally, "findings": findings,
+               "spans": span_map, "elem_bytes": B::ELEMENT_BYTES, "digest_bytes": digest_bytes})
     }
 }
 
